@@ -364,6 +364,29 @@ def check(ctx):
     o = Ob('C13.7', 'K2', 'restore_functionality: finished part => a hand-over attempt is scheduled; idle => upstream notified; events unpaused')
     obs.append(o)
     restore_flow(ctx, o)
+
+    # ---- C13.8 a failure names the part it discards -----------------------------------------------------------------------------
+    o = Ob('C13.8', 'K12', 'tests of the form `x if part else y` / `if part:` on a slot value mean "a part is there": no class of the Part hierarchy may make its instances falsy '
+                           '(__bool__ / __len__), or an empty batch discarded by a failure is logged as "nothing lost" while the callbacks are given it')
+    obs.append(o)
+    sites = dv.part_truthiness_sites(P)
+    falsy = dv.truthiness_overrides(P)
+    o.count()
+    for c_, f, e in sites:
+        o.count()
+        where = f'{c_.name}.{f.name}' if c_ is not None else f.name
+        if falsy:
+            kc, km = falsy[0]
+            o.fail(P, where, e, f'`{ast.unparse(e)}` is tested for truth, and {kc.name}.{km} makes a part falsy without being absent (every such test now also '
+                   f'rejects e.g. an empty batch); compare with None instead, or do not define {km} in the Part hierarchy', file=(c_.mod.path if c_ is not None else None), line=e.lineno)
+        else:
+            o.witness((where, ast.unparse(e)))
+    if not sites:
+        o.witness('no truthiness test on a part')
+    o.sample({'truthiness_tests_on_parts': [f'{(c_.name + ".") if c_ is not None else ""}{f.name}: {ast.unparse(e)}' for c_, f, e in sites][:8],
+              'falsy_makers_in_Part_hierarchy': [f'{c.name}.{m}' for c, m in falsy]})
+    obs.append(ctx.shared('c12', 'C12.3', 'C13.9', 'a default work order restores its target when it ends: two orders in progress on one target would bring the machine up '
+                          'when the first ends, while the second still runs -- the maintainer must never start an order whose target is being worked on'))
     return obs
 
 
